@@ -237,6 +237,16 @@ func Sim(t *testing.T, body func(r *Run)) {
 		ResetCallIndex()
 		r := &Run{T: rt, Prop: Prop(), faults: map[string]*FaultCount{}, counters: map[string]int64{}, cells: map[string]map[string]bool{}}
 		defer r.finish()
+		defer func() {
+			if x := recover(); x != nil {
+				sr, ok := x.(SetupRefused)
+				if !ok {
+					panic(x)
+				}
+				r.Violation("C03/required-witnesses-do-not-suffice", "", "%s", sr.Msg)
+				r.Checkpoint()
+			}
+		}()
 		body(r)
 	})
 }
@@ -412,6 +422,19 @@ func (r *Run) Violation(rule, kfKey, format string, a ...any) {
 		r.T.Logf("KFKEY %s", kfKey)
 	}
 	r.T.Fatalf("VIOLATION rule=%s", rule)
+}
+
+// ViolationSynced is Violation for a broken rule after which the engine keeps
+// its model in sync with the implementation (it follows what really happened):
+// if the rule belongs to another property the hit is only counted and the run
+// goes on, so that this property's own rules judge the rest of the history.
+func (r *Run) ViolationSynced(rule, kfKey, format string, a ...any) {
+	prop := strings.SplitN(rule, "/", 2)[0]
+	if prop != r.Prop || r.shadow {
+		r.Count("foreign_rule_followed." + rule)
+		return
+	}
+	r.Violation(rule, kfKey, format, a...)
 }
 
 // ViolationOrKnown is Violation for observations that leave the model in sync
